@@ -113,6 +113,18 @@ EntryAllowed(ev) ==
     ELSE /\ ev.out = "abort"
          \* a refused address never reaches sandbox memory: the cell still holds the sentinel
          /\ (ev.cellapi => Eq(ev.stored, FromInt(48879)))
+         \* ... nor the tainted pointer it was assigned to, which designated offset 48 of the
+         \* sandbox before: afterwards it still does (or is null), never the refused address
+         /\ (ev.heldapi => Eq(ev.stored, FromInt(48)) \/ Eq(ev.stored, FromInt(0 - 1)))
+
+\* copy_memory_or_grant_access on a backend with the grant / deny interface: the backend is asked
+\* to expose a raw application range only after the range has been accepted; a refused range
+\* (null, wrapping, crossing a sandbox boundary) aborts and was never shown to the backend
+GrantAllowed(ev) ==
+  IF ev.rangeok
+    THEN /\ ev.out = "ok" /\ ev.cls \in {"in", "null"}
+         /\ ev.asked <= 1 /\ (ev.asked = 1 => ev.asked_same)
+    ELSE ev.out = "abort" /\ ev.asked = 0
 
 \* storing application address (sb, off) into a pointer cell of sandbox `own`
 PtrStoreAllowed(ev) ==
